@@ -261,9 +261,9 @@ def draw_eff(d, eff, date):
 def draw_priorities(d, mode, n):
     if mode == 'sym':
         return [d.int(1, 16, 'prio%d' % i) for i in range(n)]
-    if mode == 'near':
-        # first one anywhere in 1..16, each further one within one step of its predecessor
-        out = [d.int(1, 16, 'prio0')]
+    if isinstance(mode, (list, tuple)) and mode[0] == 'near':
+        # first one anywhere in mode[1]..mode[2], each further one within one step of its predecessor
+        out = [d.int(mode[1], mode[2], 'prio0')]
         for i in range(1, n):
             p = out[-1] + d.int(-1, 1, 'prio%d_step' % i)
             d.assume(1 <= p <= 16)
@@ -345,15 +345,17 @@ def plain(x):
 
 
 EVAL_BOUNDS = ("one schedule per path inside the instance's shape: exc = exception entries as (period kind, number "
-               "of time-values); period content symbolic around the evaluated day (date pattern / weekNDay: day-of-week "
-               "octet over {1..7, FF}; date range: both limits within one day of it; calendar reference: calendar object "
-               "with 0..2 such entries); event priority symbolic per `prio` (sym: each 1..16; near: first 1..16, next "
-               "within one step; list: picked from it); every time-value: hour 0..23 and minute 0..59 symbolic, strictly "
-               "increasing inside a list, value distinct or NULL (symbolic); weekly list of the day: nweek entries alike "
+               "of time-values); period content symbolic around the evaluated day (date / wnd: day-of-week octet over "
+               "{1..7, FF} of a date pattern / weekNDay; dow: date pattern on this or the neighbouring day of week; any: FF FF FF "
+               "FF; date range: both limits within one day of it; calendar reference: calendar object "
+               "with 0..2 such entries); event priority per `prio` (sym: each symbolic 1..16; (near, a, b): first symbolic "
+               "a..b, next within one step of it; list of tuples: picked from it); every time-value: symbolic time per `res` (hm: hour 0..23 and minute 0..59; h: hour "
+               "0..23 on the hour), strictly increasing inside a list, value distinct or NULL (symbolic); weekly list of the day: nweek entries alike "
                "(other weekdays carry a marker entry); effective period per `eff` (wide: 1900-01-01..2154-12-31 as in the "
                "repository's tests; days: both limits symbolic within one day of the evaluated day; open-*: limit(s) "
-               "unspecified); evaluated on the concrete day(s) `days` at a symbolic hh:mm, second instant hh:mm symbolic "
-               "in [now, reported next transition)")
+               "unspecified); evaluated on the concrete day(s) `days` at a symbolic time (same `res`); no-staleness per "
+               "`stale`: instant = a second symbolic time in [now, reported next transition); breakpoints = every entry time of "
+               "the day's lists that falls strictly between now and the reported next transition")
 EVAL_OUTSIDE = ("more exceptions / time-values than the shape; seconds and hundredths other than 0; lists not in "
                 "increasing time order or with equal times; the value the schedule shows when two exceptions in force on "
                 "the day share one priority (not decided by the statement: only no-staleness and progress are checked "
@@ -573,8 +575,7 @@ def instances(tier):
         out.append(Inst(match_date_range, dict(start=SP, end=SP, dow='right'), budget=B))
         out.append(Inst(calendar_entry, dict(choice='date', maxday=28), budget=B))
         out.append(Inst(calendar_entry, dict(choice='dateRange', maxday=28), budget=B))
-        for ms in [(1, 6), (7, 12)]:
-            out.append(Inst(calendar_entry, dict(choice='weekNDay', maxday=28, months=ms), budget=B))
+        out.append(Inst(calendar_entry, dict(choice='weekNDay', maxday=28, months=(2, 3)), budget=B))
         # ---- eval: weekly list alone, on all three days
         _ev(out, B, days=A, exc=[], nweek=None)
         _ev(out, B, days=A, exc=[], nweek=2)
@@ -586,9 +587,12 @@ def instances(tier):
         # two entries per list
         _ev(out, B, exc=[('dow', 2)], nweek=2, prio=[(8,)], res='h', stale='breakpoints')
         # two exceptions: priority order both ways and a tie
-        for pp in P3:
+        for pp in P3 + [(15, 16)]:
             _ev(out, B, exc=[('dow', 1), ('dow', 1)], nweek=1, prio=[pp], res='h', stale='breakpoints')
+        for pp in P3[1:]:
             _ev(out, B, exc=[('dow', 2), ('dow', 2)], nweek=0, prio=[pp], res='h', stale='breakpoints')
+        # an exception in force without any entry
+        _ev(out, B, exc=[('dow', 0), ('dow', 1)], nweek=1, prio=P3[:2], res='h')
         # effective period: both limits around the day, open-ended
         for eff in ('days', 'open-start', 'open-end', 'open-both'):
             _ev(out, B, exc=[], nweek=1, eff=eff)
@@ -622,7 +626,11 @@ def instances(tier):
     # every priority; every pair of priorities
     _ev(out, B, exc=[('dow', 1)], nweek=1, prio='sym')
     _ev(out, B, exc=[('any', 1), ('any', 1)], nweek=0, prio='sym', res='h', stale='breakpoints')
-    _ev(out, B, exc=[('dow', 1), ('dow', 1)], nweek=1, prio='near', res='h', stale='breakpoints')
+    for lo in (1, 5, 9, 13):
+        _ev(out, B, exc=[('dow', 1), ('dow', 1)], nweek=1, prio=('near', lo, lo + 3), res='h', stale='breakpoints')
+    for pp in P3:
+        _ev(out, B, exc=[('dow', 1), ('dow', 1)], nweek=1, prio=[pp])
+    _ev(out, B, exc=[('dow', 0), ('dow', 1)], nweek=1, prio=P3[:2])
     # three entries per list
     _ev(out, B, exc=[('dow', 3)], nweek=3, prio=[(8,)], res='h', stale='breakpoints')
     for pp in P3 + [(15, 16)]:
